@@ -22,6 +22,10 @@ mod ops_edwards;
 mod ops_misc;
 mod ops_vec;
 mod ops_more;
+mod ops_mem;
+
+#[global_allocator]
+static GLOBAL: ops_mem::LogAlloc = ops_mem::LogAlloc;
 
 pub use curve25519_dalek::edwards::EdwardsPoint;
 pub use curve25519_dalek::montgomery::MontgomeryPoint;
@@ -67,6 +71,7 @@ fn dispatch(op: &str, e: &Value, ctx: &mut Ctx) -> Result<Value, String> {
         "ed" => ops_edwards::run(op, e, ctx),
         "vec" | "const" => ops_vec::run(op, e, ctx),
         "tot" | "serde" | "ff" | "grp" => ops_more::run(op, e, ctx),
+        "mem" => ops_mem::run(op, e, ctx),
         _ => ops_misc::run(op, e, ctx),
     }
 }
